@@ -43,6 +43,15 @@ def _name_kind(fi, expr, at):
                 v = d[1]
                 if isinstance(v, ast.AST) and norm(v).endswith(".__name__"):
                     continue
+                # V.__name__ if isinstance(V, type) else V   (and the mirrored form): the same normalisation as an expression
+                if isinstance(v, ast.IfExp):
+                    tt = norm(v.test)
+                    for (cls_arm, other_arm, txt) in ((v.body, v.orelse, "isinstance(%s, type)"), (v.orelse, v.body, "not isinstance(%s, type)")):
+                        if isinstance(other_arm, ast.Name) and tt == txt % other_arm.id and norm(cls_arm) == "%s.__name__" % other_arm.id:
+                            break
+                    else:
+                        ok = False
+                    continue
                 if isinstance(v, ast.Name) and d[0] != "ENTRY":
                     conds = [(norm(t_), p_) for (t_, p_) in cfg.conditions_of(d[0])]
                     if ("isinstance(%s, type)" % v.id, False) in conds:
